@@ -145,8 +145,10 @@ func (c *Client) handlePacket(pktx pkts.Packet) error {
 		// the REGISTER packet contains an already registered TopicID.
 		// I suppose the right reaction is to reject the registratin with
 		// `Rejected: invalid topic ID`.
+		// A retransmitted REGISTER (same name, same TopicID; the REGACK was
+		// lost) must be accepted again.
 		var returnCode pkts1.ReturnCode
-		if _, ok := c.registeredTopics[string(pkt.TopicName)]; ok {
+		if topicID, ok := c.registeredTopics[string(pkt.TopicName)]; ok && topicID != pkt.TopicID {
 			returnCode = pkts1.RC_INVALID_TOPIC_ID
 		} else {
 			returnCode = pkts1.RC_ACCEPTED
